@@ -19,6 +19,21 @@ CHECKS = {
  "C13": ("model_checking", "the irrigation decision is an exact relation (spec/IrrRel.tla) recomputed by TLC for every decision of every traced run, plus day/season contract clauses; schedule bound by date", "5 C13", "exact TLA+ decision relation, TLC trace validation"),
  "C19": ("model_checking", "water-table series recomputed by TLC from the observations, adjusted-field-capacity / capillary-rise / saturation clauses on every stage and day of traced runs; MC_Water carries the table variable", "5 C19", "TLA+ contract actions + TLC model checking + TLC trace validation"),
 }
+
+CHECKS.update({
+ "C07": ("model_checking", "the clock is an EXACT model (spec/ClockRel.tla on the real Gregorian calendar): MC_Clock checks chronology, dap counting, season-end cause, consecutive seasons, no-skip/jump, termination (liveness) over a generated window lattice; the same windows are replayed on the code with a fast crop and every step is compared with ClockStep by TLC; clock events of full-length runs (thermal crops, deaths) are validated too", "5 C07", "exact TLA+ clock model; TLC model checking incl. liveness; replay of spec windows into the code + trace validation"),
+ "C08": ("model_checking", "season k of a multi-season run vs a fresh single-season run started on that season's planting date: both executed, tables aligned by date and judged by TLC (spec/Equiv.tla, rule seasonOffset); the reset itself is checked field-wise in Trace.tla (Reset clauses)", "5 C08", "TLC-judged lock-step equivalence of two recorded runs (Equiv.tla)"),
+ "C09": ("model_checking", "MC_Clock with SliceInvariant (clock after n steps independent of the call sequence); on the code ALL compositions of short windows (T<=9 quick, all 2^(T-1)) and random slicings of long runs are executed and judged by TLC against the uninterrupted run, including per-call completion flags", "5 C09", "TLC model checking of call slicing + exhaustive compositions replayed on the code, judged by Equiv.tla"),
+ "C10": ("model_checking", "TLC enumerates every interleaving of New/Step/Finish over two instances (spec/Histories.tla, Isolation / NonInterference); sampled behaviours are replayed in one process and each instance compared with its solo baseline; fresh interpreter processes with different hash seeds", "5 C10", "TLC-enumerated API histories replayed on the code, judged by Equiv.tla"),
+ "C11": ("model_checking", "re-running the same model object / building new models from the same user objects after n runs, for every strategy (incl. dated schedule), deepened profiles, thermal and converted crops, CO2 options; last run vs first run judged by TLC; an exception is a violation", "5 C11", "API histories with shared inputs replayed on the code, judged by Equiv.tla"),
+ "C14": ("exploration", "pairs (base, weather perturbed from cut day t on) judged on rows before t; weather outside the window altered / removed / padded; end date extended; TLC judges every pair (Equiv rules prefix / identity / seasons). Two-run property of the implementation: explored, not proved", "5 C14", "perturbation pairs judged by Equiv.tla"),
+ "C15": ("exploration", "weather-table transformations (all 120 column permutations x extra columns x index kinds x extra rows; quick: covering sample) vs canonical table, rule identity", "5 C15", "transformation pairs judged by Equiv.tla"),
+ "C16": ("exploration", "catalogue crops x soils x strategies (thorough: all 3330), option switches, leap-day dates, windows with no/partial seasons; each outcome judged by TLC against spec/Outcome.tla (completed & finite, or documented rejection in a documented phase); timeouts are non-termination verdicts", "5 C16", "outcome oracle in TLA+ (Outcome.tla) over an enumerated configuration space"),
+ "C17": ("exploration", "MC_Gdd model-checks the transcribed GDD formula exhaustively (half-degree lattice); real response functions are swept along lattices and every sweep is judged by TLC (spec/Response.tla): range, monotonicity as an action property over consecutive calls, boundary values, exact GDD / linear coefficients, inverse", "5 C17", "TLC model checking of the piecewise-linear part + lattice sweeps judged by Response.tla"),
+ "C18": ("model_checking", "the profile-construction algorithm is an exact TLA+ state machine in integer centimetres (spec/SoilBuild.tla): MC_Soil checks well-formedness and termination of the deepening loop; TLC's finished profiles are replayed on the code through the public API and compared for equality; profiles + initial water contents built by the code are judged by spec/SoilDoc.tla", "5 C18", "exact TLA+ construction model, TLC incl. liveness, replay of spec behaviours into the code"),
+ "C20": ("exploration", "each listed neutral transformation alone and in combination vs the base configuration, rule identity, judged by TLC", "5 C20", "neutral-transformation pairs judged by Equiv.tla"),
+})
+
 NA_REASON = "check not built yet (work in progress; see DESIGN.md section 5)"
 
 m = {"version": 1,
